@@ -283,8 +283,11 @@ fn run_cli(op: &Value, file: &mut String, cfg: &Cfg, cli: Option<&str>, events: 
     static CTR: std::sync::atomic::AtomicUsize = std::sync::atomic::AtomicUsize::new(0);
     let n = CTR.fetch_add(1, std::sync::atomic::Ordering::SeqCst);
     let base = std::env::var("CHK_TMP").unwrap_or_else(|_| "/dev/shm".into());
-    let dir = std::path::PathBuf::from(format!("{}/chk-cli-{}-{}", base, std::process::id(), n));
-    let _ = std::fs::create_dir_all(&dir);
+    let mut dir = std::path::PathBuf::from(format!("{}/chk-cli-{}-{}", base, std::process::id(), n));
+    if std::fs::create_dir_all(&dir).is_err() {
+        dir = std::env::temp_dir().join(format!("chk-cli-{}-{}", std::process::id(), n));
+        let _ = std::fs::create_dir_all(&dir);
+    }
     let s = |k: &str, d: &str| op.get(k).and_then(|x| x.as_str()).unwrap_or(d).to_string();
     let b = |k: &str| op.get(k).and_then(|x| x.as_bool()).unwrap_or(false);
     let input = s("input", "file");
